@@ -395,3 +395,33 @@ Proof.
   destruct c as [k|]; [|reflexivity]. destruct k; try reflexivity.
   eapply source_update_ok; [exact Hok | apply Hs; exact Hc].
 Qed.
+
+(* no re-stamp: an update of a node whose API copy already carries the escalator taint is a removal *)
+Lemma remove_one_length t b : forall b', remove_one t b = Some b' -> length b = S (length b').
+Proof.
+  induction b as [|y b IH]; intros b' H; simpl in H; [discriminate|].
+  destruct (taint_eqb y t); [inversion H; reflexivity|].
+  destruct (remove_one t b) as [b''|]; [|discriminate]. inversion H; subst. simpl. rewrite (IH b'' eq_refl). reflexivity.
+Qed.
+
+Lemma perm_taints_length a : forall b, perm_taints a b = true -> length a = length b.
+Proof.
+  induction a as [|t a IH]; intros b H; simpl in H; [destruct b; [reflexivity | discriminate]|].
+  destruct (remove_one t b) as [b'|] eqn:Er; [|discriminate]. simpl. rewrite (IH b' H). symmetry. apply (remove_one_length t). exact Er.
+Qed.
+
+Lemma drop_first_esc_length l : existsb (fun t => t_key t =? id_esc_key) l = true -> length l = S (length (drop_first_esc l)).
+Proof.
+  induction l as [|t l IH]; simpl; [discriminate|]. destruct (t_key t =? id_esc_key); [reflexivity|]. simpl. intros H. rewrite (IH H). reflexivity.
+Qed.
+
+Lemma check_update_no_restamp x name p u :
+  check_update x name p = true -> api_copy x name = Some u -> has_esc u = true ->
+  (length (n_taints p) < length (n_taints u))%nat.
+Proof.
+  intros H Hu He. unfold check_update in H. rewrite Hu in H.
+  destruct (Nat.ltb (length (n_taints u)) (length (n_taints p))) eqn:E.
+  - rewrite He in H. discriminate.
+  - apply andb_prop in H. destruct H as [_ H]. rewrite (perm_taints_length _ _ H).
+    rewrite (drop_first_esc_length (n_taints u) He). lia.
+Qed.
